@@ -14,7 +14,9 @@ from harness import core
 # (r0, delta, L0, l0): includes an inner scale that is large compared with the pixel, and repeated geometry with another r0
 # ... the Kolmogorov limit (infinite outer scale) and an outer scale smaller than the screen (L0 <= N delta for every N in scope)
 PARAMS = [(0.15, 0.1, 20.0, 0.01), (0.30, 0.1, 20.0, 0.01), (0.2, 0.1, 8.0, 0.3), (0.1, 0.05, 100.0, 0.02),
-          (0.2, 0.1, float("inf"), 0.01), (0.2, 0.25, 0.4, 0.01)]
+          (0.2, 0.1, float("inf"), 0.01), (0.2, 0.25, 0.4, 0.01),
+          # pixel sizes for which 1/(N delta) and the grid of frequencies are not exactly representable
+          (0.2, 0.3, 20.0, 0.01), (0.15, 0.07, 30.0, 0.01), (0.2, 0.7, 50.0, 0.05)]
 
 
 class ProtocolChanged(Exception):
